@@ -2,31 +2,35 @@
 use crate::runner::*;
 use serde_json::Value;
 
-pub mod c10;
-
-pub const ALL: &[&str] = &[
-    "C01", "C02", "C03", "C04", "C05", "C06", "C07", "C08", "C09", "C10", "C11", "C12", "C13", "C14", "C15", "C16",
-    "C17", "C18", "C19", "C20",
-];
-
-pub fn static_id(id: &str) -> Option<&'static str> {
-    ALL.iter().find(|x| **x == id).copied()
+macro_rules! properties {
+    ($($id:literal => $m:ident),* $(,)?) => {
+        $(pub mod $m;)*
+        pub const BUILT: &[&str] = &[$($id),*];
+        pub fn static_id(id: &str) -> Option<&'static str> {
+            BUILT.iter().find(|x| **x == id).copied()
+        }
+        pub fn run(ctx: &mut Ctx) -> bool {
+            match ctx.prop {
+                $($id => $m::run(ctx),)*
+                _ => return false,
+            }
+            true
+        }
+        /// Replay one case; None = unknown sub-check or undecodable case.
+        pub fn replay(ctx: &mut Ctx, sub: &str, case: &Value) -> Option<Result<(), String>> {
+            let sub = sub.trim_start_matches("regress/");
+            match ctx.prop {
+                $($id => $m::replay(ctx, sub, case),)*
+                _ => None,
+            }
+        }
+    };
 }
 
-pub fn run(ctx: &mut Ctx) -> bool {
-    match ctx.prop {
-        "C10" => c10::run(ctx),
-        _ => return false,
-    }
-    true
-}
-
-/// Replay one case; None = unknown sub-check or undecodable case.
-pub fn replay(ctx: &mut Ctx, sub: &str, case: &Value) -> Option<Result<(), String>> {
-    match ctx.prop {
-        "C10" => c10::replay(ctx, sub, case),
-        _ => None,
-    }
+properties! {
+    "C10" => c10,
+    "C19" => c19,
+    "C20" => c20,
 }
 
 /// Committed regression cases (/verif/corpus/regress/<id>/*.json), run first in every tier.
